@@ -116,6 +116,8 @@ Values(e) ==
   /\ e.dsigns_tail = e.expected_tail
   \* the regulariser actually applied is  const + prop * max|diag|
   /\ e.static_reg => UlpWithin(e.eps, e.eps_obs, 2)
+  \* the matrix the LDL engine actually factors (its own permuted copy) is this one, plus the static regulariser on the diagonal
+  /\ e.ldl_known => e.ldl_sync
   \* the LDL engine substitutes tiny pivots as the settings say (threshold eps, replacement delta), where the engine shows it
   /\ e.ldl_reg_known => (FSame(e.ldl_eps, e.set_eps) /\ FSame(e.ldl_delta, e.set_delta))
   \* eliminating the auxiliary variables gives the operator that maps z to s (symmetric cones)
